@@ -4,7 +4,8 @@ C11 - executable model of identity binding and SDS secret release.
 Go sources modelled (istio/istio):
   pkg/spiffe/spiffe.go                       ParseIdentity
   pilot/pkg/model/context.go                 GetProxyConfigNamespace, ParseServiceNodeWithMetadata (split/type/IP gate only)
-  pilot/pkg/xds/auth.go                      authorize, checkConnectionIdentity
+  pilot/pkg/xds/auth.go                      authenticate, authorize, checkConnectionIdentity
+  pkg/security/authentication.go, security.go Authenticate, authenticationManager.authenticate
   pilot/pkg/xds/ads.go                       initProxyMetadata (composition of the two above)
   pilot/pkg/model/credentials/resource.go    ParseResourceName, SecretResource.Key
   pilot/pkg/xds/sds.go                       SecretGen.Generate, sdsNeedsPush, parseResources,
@@ -135,6 +136,30 @@ def authorize (flag : Bool) (prev : Option Identity) (cfgNs sa : Str) (ids : Opt
       | none => .denied
       | some id => .ok (some id)
     else .ok prev
+
+/-- What the gRPC context says about the peer: no peer info, a plaintext connection, a TLS connection. -/
+inductive Peer
+  | none | plain | tls
+  deriving DecidableEq, Repr
+
+/-- `DiscoveryServer.authenticate` = `security.Authenticate` + `authenticationManager.authenticate`, as a
+    function of `features.XDSAuth`, the peer, `security.AuthPlaintext` and what each configured authenticator
+    answers for this stream (`none` = it fails or returns no caller; `some ids` = a caller with identities).
+    Outer `none` = error (stream rejected as Unauthenticated); `some none` = accepted with a nil identity
+    list; `some (some ids)` = authenticated. -/
+def authenticate (xdsAuth : Bool) (peer : Peer) (plaintextOK : Bool) (results : List (Option (List Str))) :
+    Option (Option (List Str)) :=
+  if !xdsAuth then some none
+  else
+    match peer with
+    | .none => none
+    | .plain => if plaintextOK then firstAuth results else some none
+    | .tls => firstAuth results
+where
+  firstAuth : List (Option (List Str)) → Option (Option (List Str))
+    | [] => none
+    | some ids :: rest => if ids ≠ [] then some (some ids) else firstAuth rest
+    | none :: rest => firstAuth rest
 
 def nodeTypes : List Str :=
   [['s', 'i', 'd', 'e', 'c', 'a', 'r'], ['r', 'o', 'u', 't', 'e', 'r'], ['w', 'a', 'y', 'p', 'o', 'i', 'n', 't'],
